@@ -946,8 +946,8 @@ func ruleLX(parts ...string) Rule {
 // AR3: the right operand of a lazy operator is read only after the left decided.
 
 func ruleAR3() Rule {
-	return Rule{ID: "AR3", Kind: "must", Floor: 3,
-		Doc: "in the reductions of &&, || and ?: the value of a lazily evaluated operand is fetched (expand) only under the test of the deciding operand, so a non-numeric variable in the operand C would skip raises no error",
+	return Rule{ID: "AR3", Kind: "must", Floor: 4,
+		Doc: "in the reductions of &&, || and ?: the value of a lazily evaluated operand is fetched (expand) only under the test of the deciding operand, or while the operand's gate (see AR) is still the one consulted by every variable read, so a non-numeric variable in the operand C would skip raises no error",
 		Run: func(c *Ctx, rr *core.RuleResult) {
 			gi := c.grammar("interp")
 			if gi.Err != nil {
@@ -956,21 +956,37 @@ func ruleAR3() Rule {
 			}
 			info := c.P.Pkgs["interp"].TypesInfo
 			exp := c.fn("interp.expand")
+			g := c.gate()
+			// operands by the production that holds them
+			type at struct {
+				n, idx int
+			}
+			lazy := map[at]*lazyOperand{}
+			for _, o := range g.operands {
+				lazy[at{o.holder.prod.N, o.holder.idx}] = o
+			}
+			// with a gate, reads are conditional on it whoever fetches
+			readsGated := false
+			if g.enter != nil && g.leave != nil && g.dead != nil {
+				readsGated = true
+				nreads := 0
+				for _, e := range c.effects(g) {
+					if e.kind == "read" {
+						nreads++
+						if e.f == nil || !c.deadGuarded(g, e.f, e.n, 0) {
+							readsGated = false
+						}
+					}
+				}
+				if nreads == 0 {
+					readsGated = false
+				}
+			}
 			for _, p := range gi.G.Prods {
 				cc := gi.Checked.Cases[p.N]
 				if cc == nil {
 					continue
 				}
-				var lazy []int // RHS positions (1-based) evaluated lazily
-				switch {
-				case len(p.RHS) == 3 && (p.RHS[1] == "LAND" || p.RHS[1] == "LOR"):
-					lazy = []int{3}
-				case len(p.RHS) == 5 && p.RHS[1] == "'?'":
-					lazy = []int{3, 5}
-				default:
-					continue
-				}
-				// the variable holding the deciding operand's value
 				ast.Inspect(cc, func(n ast.Node) bool {
 					call, ok := n.(*ast.CallExpr)
 					if !ok || len(call.Args) != 2 {
@@ -983,16 +999,11 @@ func ruleAR3() Rule {
 					if !ok || isVal {
 						return true
 					}
-					isLazy := false
-					for _, k := range lazy {
-						if k == i {
-							isLazy = true
-						}
-					}
-					if !isLazy {
+					o := lazy[at{p.N, i}]
+					if o == nil {
 						return true
 					}
-					key := fmt.Sprintf("interp|action %d (%s) reads operand %d lazily", p.N, p.RHS[1], i)
+					key := fmt.Sprintf("interp|action of `%s` reads operand %d lazily", p, i)
 					// some enclosing guard must test a value obtained from operand 1
 					ok = false
 					for _, gd := range guardsOf(c.P, call, cc) {
@@ -1000,9 +1011,22 @@ func ruleAR3() Rule {
 							ok = true
 						}
 					}
-					if ok {
+					// or the fetch happens before the operand's gate is closed, and reads honour the gate
+					gatedFetch := false
+					if !ok && o.marker != nil && readsGated {
+						ops, calls, uncond := c.gateCalls(g, cc)
+						if uncond && len(ops) > 0 && ops[0] == -1 && call.Pos() < calls[0].Pos() {
+							if _, err := c.gatedOperand(g, o); err == nil {
+								gatedFetch = true
+							}
+						}
+					}
+					switch {
+					case ok:
 						rr.OKp(c.P, key, call.Pos(), "guarded", "fetched only after the deciding operand was tested against 0")
-					} else {
+					case gatedFetch:
+						rr.OKp(c.P, key, call.Pos(), "gated", "fetched before the operand's gate is closed; every variable read is conditional on the gate")
+					default:
 						rr.Badp(c.P, key, call.Pos(), "the operand C would skip is fetched unconditionally: `0 && S` with a non-numeric S fails with `invalid number` instead of yielding 0")
 					}
 					return true
